@@ -66,6 +66,7 @@ type Node struct {
 	Exec                                         *consensus.Executer
 	Pool                                         *txpool.TransactionPool
 	Gen                                          *generator.Generator
+	GenCfg                                       *config.Config // the configuration the generator reads its payload limit from
 	Handler                                      *framework.ABIHandler
 	ABI                                          *ABILoop
 	events                                       chan interface{}
@@ -156,7 +157,13 @@ func (n *Node) Start() (err error) {
 	// engine
 	n.Conn = p2p.NewConnection(n.Log, &p2p.Config{Version: "1.0", ChainID: n.P.ChainID})
 	n.Conn.VerifAttach(n.Peer, n.Transport)
-	n.Chain = blockchain.NewChain(&blockchain.ChainConfig{ChainID: n.P.ChainID, MaxTransactionsLength: n.P.MaxTxSize, MaxBlockCache: n.P.MaxBlockCache, KeepEventsForHeights: n.P.KeepEvents})
+	// the adversary's shadow nodes run a "modified client" that takes payloads up to four times the chain's limit, so that
+	// the adversary can build on its own oversized blocks; honest nodes have the chain's limit
+	maxPayload := n.P.MaxTxSize
+	if n.IsAdversary {
+		maxPayload *= 4
+	}
+	n.Chain = blockchain.NewChain(&blockchain.ChainConfig{ChainID: n.P.ChainID, MaxTransactionsLength: maxPayload, MaxBlockCache: n.P.MaxBlockCache, KeepEventsForHeights: n.P.KeepEvents})
 	n.Chain.Init(n.P.Genesis, n.BlockchainDB)
 	n.Exec = consensus.NewExecuter(&consensus.ExecuterConfig{CTX: ctx, ABI: n.ABI, Chain: n.Chain, Conn: n.Conn, BlockTime: n.P.BlockTime, BatchSize: n.P.BatchSize})
 	poolCfg := n.P.Pool
@@ -179,6 +186,7 @@ func (n *Node) Start() (err error) {
 	}
 	ecfg := &config.Config{Genesis: &config.GenesisConfig{ChainID: n.P.ChainID, BlockTime: n.P.BlockTime, MaxTransactionsSize: n.P.MaxTxSize, BFTBatchSize: uint32(n.P.BatchSize)},
 		Generator: &config.GeneratorConfig{Keys: &config.KeysConfig{}}, System: &config.SystemConfig{}}
+	n.GenCfg = ecfg
 	if err := n.Gen.Init(&generator.GeneratorInitParams{CTX: ctx, Cfg: ecfg, Logger: n.Log, BlockchainDB: n.BlockchainDB, GeneratorDB: n.GeneratorDB}); err != nil {
 		return err
 	}
